@@ -175,7 +175,14 @@ func run(c *mon.Ctx) {
 		if len(pay) == 188 {
 			pay = append(pay, 0xff)
 		}
+		pay = r.Slack(pay)
 		snap := append([]byte{}, pay...)
+		if i%8 == 3 {
+			// right after calls that fail: no state is carried over
+			psi.NewPAT(pay[:r.Intn(8)])
+			psi.NewPAT(nil)
+			c.Count("decode_after_failed_decode")
+		}
 		pat, err := psi.NewPAT(pay)
 		c.Eval(1)
 		ok := checkPAT(c, "payload", pat, err, &p, snap)
